@@ -728,3 +728,242 @@ Proof.
   - unfold view. cbn [m_hdr m_qs m_an m_ns m_ar]. rewrite map_id in Vq. rewrite map_id in Vq. now rewrite Vq, Va, Vn, Vr.
   - rewrite !app_length, Hhb. lia.
 Qed.
+
+(* ---------- with a size limit: sections packed under a limit (C09, compression ON) ---------- *)
+Section CCListLimit.
+  Context {A V : Type} (plen : A -> nat) (pk : A -> nat -> tbl -> res (list N * tbl))
+          (un : list N -> nat -> res (A * nat)) (P : A -> Prop) (vw : A -> V).
+  Hypothesis Hlen : forall x off t b t', P x -> pk x off t = Ok (b, t') -> length b <= plen x.
+  Hypothesis Hcc : forall x, P x -> forall pre t, tbl_ok pre t ->
+    exists b t' x', pk x (length pre) t = Ok (b, t') /\
+      (forall post, tbl_ok (pre ++ b ++ post) t') /\
+      (forall post, un (pre ++ b ++ post) (length pre) = Ok (x', length pre + length b)) /\
+      vw x' = vw x.
+
+  Lemma cc_list_limit xs : Forall P xs -> forall limit pre t buflen, tbl_ok pre t ->
+    length pre + sum_len plen xs <= buflen ->
+    exists kept bs t' xs', sublist kept xs /\
+      pack_list plen pk limit buflen xs (length pre) t = Ok (bs, t', length kept) /\
+      (forall post, tbl_ok (pre ++ bs ++ post) t') /\
+      (forall post, unpack_list un (length kept) (pre ++ bs ++ post) (length pre) = Ok (xs', length pre + length bs)) /\
+      map vw xs' = map vw kept /\ length bs <= sum_len plen xs.
+  Proof.
+    induction 1 as [|x xs Hx _ IH]; intros limit pre t buflen Hok Hfit.
+    - exists [], [], t, []. cbn. repeat split; auto.
+      + constructor.
+      + intros post. now apply tbl_ok_app.
+      + intros post. f_equal. f_equal. lia.
+    - cbn [sum_len fold_right] in Hfit. fold (sum_len plen xs) in Hfit. cbn [pack_list].
+      destruct (over limit (length pre + plen x)).
+      + destruct (IH limit pre t buflen Hok) as (kept & bs & t' & xs' & Hs & Hp & Ht & Hu & Hv & Hl); [lia|].
+        exists kept, bs, t', xs'. repeat split; auto.
+        * now constructor.
+        * cbn [sum_len fold_right]. fold (sum_len plen xs). lia.
+      + destruct (Hcc x Hx pre t Hok) as (b & t1 & x' & Hp & Htab & Hun & Hv).
+        pose proof (Hlen _ _ _ _ _ Hx Hp) as Hb.
+        assert (Hok1 : tbl_ok (pre ++ b) t1) by (specialize (Htab []); now rewrite app_nil_r in Htab).
+        destruct (IH limit (pre ++ b) t1 buflen Hok1) as (kept & bs & t2 & xs' & Hs & Hps & Htabs & Huns & Hvs & Hls).
+        { rewrite app_length. lia. }
+        rewrite app_length in Hps.
+        exists (x :: kept), (b ++ bs), t2, (x' :: xs'). rewrite Hp. cbn [bind].
+        assert (buflen <? length pre + length b = false) as -> by (apply Nat.ltb_ge; lia).
+        rewrite Hps. cbn [bind length]. split; [now constructor|]. split; [reflexivity|]. split; [|split; [|split]].
+        * intros post. specialize (Htabs post). rewrite <- !app_assoc in *. exact Htabs.
+        * intros post. cbn [unpack_list].
+          replace (pre ++ (b ++ bs) ++ post) with (pre ++ b ++ (bs ++ post)) by (rewrite <- !app_assoc; reflexivity).
+          rewrite Hun. cbn [bind]. specialize (Huns post). rewrite <- app_assoc, app_length in Huns.
+          rewrite Huns. cbn [bind]. f_equal. f_equal. rewrite app_length. lia.
+        * cbn [map]. now rewrite Hv, Hvs.
+        * cbn [sum_len fold_right]. fold (sum_len plen xs). rewrite app_length. lia.
+  Qed.
+End CCListLimit.
+
+Lemma pop_opt_depth m : Forall rr_depth_ok (m_ar m) ->
+  Forall rr_depth_ok (snd (pop_opt (m_ar m))) /\ (forall o, fst (pop_opt (m_ar m)) = Some o -> rr_depth_ok o).
+Proof.
+  intros H. destruct (pop_opt (m_ar m)) as [o ar0] eqn:E. cbn [fst snd].
+  destruct (pop_opt_facts rr_depth_ok _ _ _ H E) as (H1 & H2 & _). split; [exact H1|].
+  intros x ->. now destruct (H2 x eq_refl).
+Qed.
+
+(* C09, compression ON: the size-limited compressed encoding decodes cleanly, whatever follows it, to a message whose
+   header is the original one with TC := TC || (something omitted), whose questions / answers / authorities are
+   (as views) order-preserving sublists of the original ones, and whose additionals are a sublist of the non-OPT
+   additionals followed by the OPT record *)
+Lemma unpack_list_snoc n1 : forall msg off xs1 o1 x o2, unpack_list unpack_rr n1 msg off = Ok (xs1, o1) ->
+  unpack_rr msg o1 = Ok (x, o2) -> unpack_list unpack_rr (n1 + 1) msg off = Ok (xs1 ++ [x], o2).
+Proof.
+  induction n1 as [|n1 IHn]; intros msg off xs1 o1 x o2 H1 H2; cbn [unpack_list Nat.add] in *.
+  - inversion H1; subst. rewrite H2. reflexivity.
+  - destruct (unpack_rr msg off) as [[y oy]| | |]; cbn [bind] in *; try discriminate.
+    destruct (unpack_list unpack_rr n1 msg oy) as [[ys oys]| | |] eqn:E; cbn [bind] in *; try discriminate.
+    inversion H1; subst. rewrite (IHn _ _ _ _ _ _ E H2). reflexivity.
+Qed.
+
+Theorem compressed_truncated size m post : wf_msg m -> msg_depth_ok m -> 0 < size ->
+  exists out m' kq ka kn kr,
+    pack_msg (msg_len m) true size m = Ok out /\ unpack_msg (out ++ post) = Ok m' /\
+    sublist kq (m_qs m) /\ sublist ka (m_an m) /\ sublist kn (m_ns m) /\ sublist kr (snd (pop_opt (m_ar m))) /\
+    m_qs m' = kq /\ map rr_view (m_an m') = map rr_view ka /\ map rr_view (m_ns m') = map rr_view kn /\
+    map rr_view (m_ar m') = map rr_view (kr ++ opt_list m) /\
+    m_hdr m' = set_tc (m_hdr m) (h_tc (m_hdr m) ||
+                 negb ((length kq =? length (m_qs m)) && (length ka =? length (m_an m)) &&
+                       (length kn =? length (m_ns m)) && (length kr =? length (snd (pop_opt (m_ar m)))))).
+Proof.
+  intros Hw (Dq & Da & Dn & Dr) Hs. rewrite pack_msg_limit_eq by assumption.
+  destruct (wf_pop m Hw) as (Far0 & Hopt' & Hnone & Hsum).
+  destruct (pop_opt_depth m Dr) as (Dar0 & Dopt).
+  destruct Hw as (Hh & Fq & Fa & Fn & Fr & Cq & Ca & Cn & Cr).
+  unfold pack_msg_limit. rewrite !too_many_false by assumption. cbn [orb].
+  assert (msg_len m <? 12 = false) as -> by (apply Nat.ltb_ge; unfold msg_len; lia).
+  set (limit := limit_of size m). set (ar0 := snd (pop_opt (m_ar m))) in *.
+  assert (FQ : Forall (fun q => wf_question q /\ q_depth_ok q) (m_qs m)) by (rewrite Forall_forall in *; intros q Hq; split; auto).
+  assert (FA : Forall (fun r => wf_rr r /\ rr_depth_ok r) (m_an m)) by (rewrite Forall_forall in *; intros r Hr; split; auto).
+  assert (FN : Forall (fun r => wf_rr r /\ rr_depth_ok r) (m_ns m)) by (rewrite Forall_forall in *; intros r Hr; split; auto).
+  assert (FR : Forall (fun r => wf_rr r /\ rr_depth_ok r) ar0) by (rewrite Forall_forall in *; intros r Hr; split; auto).
+  assert (CCQ : forall x, (wf_question x /\ q_depth_ok x) -> forall pre t, tbl_ok pre t ->
+            exists b t' x', pack_question true x (length pre) t = Ok (b, t') /\
+              (forall post, tbl_ok (pre ++ b ++ post) t') /\
+              (forall post, unpack_question (pre ++ b ++ post) (length pre) = Ok (x', length pre + length b)) /\ x' = x).
+  { intros x [W D] pre t Hok. destruct (cc_question_ok x W D pre t Hok) as (b & t' & H1 & H2 & H3). exists b, t', x. auto. }
+  assert (CCR : forall x, (wf_rr x /\ rr_depth_ok x) -> forall pre t, tbl_ok pre t ->
+            exists b t' x', pack_rr true x (length pre) t = Ok (b, t') /\
+              (forall post, tbl_ok (pre ++ b ++ post) t') /\
+              (forall post, unpack_rr (pre ++ b ++ post) (length pre) = Ok (x', length pre + length b)) /\
+              rr_view x' = rr_view x).
+  { intros x [W D]. exact (cc_rr_ok x W D). }
+  assert (LQ : forall x off t b t', (wf_question x /\ q_depth_ok x) -> pack_question true x off t = Ok (b, t') -> length b <= q_len x)
+    by (intros; eapply pack_question_len; eauto).
+  assert (LR : forall x off t b t', (wf_rr x /\ rr_depth_ok x) -> pack_rr true x off t = Ok (b, t') -> length b <= rr_len x)
+    by (intros x off t b t' [W _] Hp; eapply pack_rr_len; eauto).
+  unfold opt_len in Hsum.
+  (* the four sections, against ANY 12 header octets hb: the packing calls do not read the buffer *)
+  assert (Sect : forall hb, length hb = 12 ->
+    exists kq ka kn kr qb ab nb rb t1 t2 t3 t4 qs' an' ns' ar',
+      sublist kq (m_qs m) /\ sublist ka (m_an m) /\ sublist kn (m_ns m) /\ sublist kr ar0 /\
+      pack_list q_len (pack_question true) limit (msg_len m) (m_qs m) 12 [] = Ok (qb, t1, length kq) /\
+      pack_list rr_len (pack_rr true) limit (msg_len m) (m_an m) (12 + length qb) t1 = Ok (ab, t2, length ka) /\
+      pack_list rr_len (pack_rr true) limit (msg_len m) (m_ns m) (12 + length qb + length ab) t2 = Ok (nb, t3, length kn) /\
+      pack_list rr_len (pack_rr true) limit (msg_len m) ar0 (12 + length qb + length ab + length nb) t3 = Ok (rb, t4, length kr) /\
+      tbl_ok (hb ++ qb ++ ab ++ nb ++ rb) t4 /\
+      12 + length qb + length ab + length nb + length rb <= 12 + sum_len q_len (m_qs m) + sum_len rr_len (m_an m) +
+                                                            sum_len rr_len (m_ns m) + sum_len rr_len ar0 /\
+      (forall post, unpack_list unpack_question (length kq) (hb ++ qb ++ ab ++ nb ++ rb ++ post) 12 = Ok (qs', 12 + length qb) /\
+                    unpack_list unpack_rr (length ka) (hb ++ qb ++ ab ++ nb ++ rb ++ post) (12 + length qb) = Ok (an', 12 + length qb + length ab) /\
+                    unpack_list unpack_rr (length kn) (hb ++ qb ++ ab ++ nb ++ rb ++ post) (12 + length qb + length ab) = Ok (ns', 12 + length qb + length ab + length nb) /\
+                    unpack_list unpack_rr (length kr) (hb ++ qb ++ ab ++ nb ++ rb ++ post) (12 + length qb + length ab + length nb) = Ok (ar', 12 + length qb + length ab + length nb + length rb)) /\
+      qs' = kq /\ map rr_view an' = map rr_view ka /\ map rr_view ns' = map rr_view kn /\ map rr_view ar' = map rr_view kr).
+  { intros hb Hhb. assert (Hok0 : tbl_ok hb []) by constructor.
+    destruct (cc_list_limit q_len (pack_question true) unpack_question _ (fun q => q) LQ CCQ (m_qs m) FQ limit hb [] (msg_len m) Hok0)
+      as (kq & qb & t1 & qs' & Sq & Pq & Tq & Uq & Vq & Lq); [unfold msg_len; lia|].
+    rewrite Hhb in Pq.
+    assert (Hok1 : tbl_ok (hb ++ qb) t1) by (specialize (Tq []); now rewrite app_nil_r in Tq).
+    destruct (cc_list_limit rr_len (pack_rr true) unpack_rr _ rr_view LR CCR (m_an m) FA limit (hb ++ qb) t1 (msg_len m) Hok1)
+      as (ka & ab & t2 & an' & Sa & Pa & Ta & Ua & Va & La); [rewrite app_length; unfold msg_len; lia|].
+    rewrite app_length, Hhb in Pa.
+    assert (Hok2 : tbl_ok ((hb ++ qb) ++ ab) t2) by (specialize (Ta []); now rewrite app_nil_r in Ta).
+    destruct (cc_list_limit rr_len (pack_rr true) unpack_rr _ rr_view LR CCR (m_ns m) FN limit ((hb ++ qb) ++ ab) t2 (msg_len m) Hok2)
+      as (kn & nb & t3 & ns' & Sn & Pn & Tn & Un & Vn & Ln); [rewrite !app_length; unfold msg_len; lia|].
+    rewrite !app_length, Hhb in Pn.
+    assert (Hok3 : tbl_ok (((hb ++ qb) ++ ab) ++ nb) t3) by (specialize (Tn []); now rewrite app_nil_r in Tn).
+    destruct (cc_list_limit rr_len (pack_rr true) unpack_rr _ rr_view LR CCR ar0 FR limit (((hb ++ qb) ++ ab) ++ nb) t3 (msg_len m) Hok3)
+      as (kr & rb & t4 & ar' & Sr & Pr & Tr & Ur & Vr & Lr); [rewrite !app_length; unfold msg_len; lia|].
+    rewrite !app_length, Hhb in Pr.
+    exists kq, ka, kn, kr, qb, ab, nb, rb, t1, t2, t3, t4, qs', an', ns', ar'.
+    split; [exact Sq|]. split; [exact Sa|]. split; [exact Sn|]. split; [exact Sr|].
+    split; [exact Pq|]. split; [exact Pa|]. split; [exact Pn|]. split; [exact Pr|].
+    split. { specialize (Tr []). rewrite app_nil_r, <- !app_assoc in Tr. exact Tr. }
+    split; [lia|]. split.
+    - intros post0.
+      specialize (Uq (ab ++ nb ++ rb ++ post0)). rewrite Hhb in Uq.
+      specialize (Ua (nb ++ rb ++ post0)). rewrite app_length, Hhb, <- !app_assoc in Ua.
+      specialize (Un (rb ++ post0)). rewrite !app_length, Hhb, <- !app_assoc in Un.
+      specialize (Ur post0). rewrite !app_length, Hhb, <- !app_assoc in Ur.
+      repeat split; assumption.
+    - rewrite map_id in Vq. rewrite map_id in Vq. repeat split; assumption. }
+  (* fix the counts with a first instance, then build the real header from them *)
+  destruct (Sect (repeat 0%N 12) eq_refl) as (kq0 & ka0 & kn0 & kr0 & qb & ab & nb & rb & t1 & t2 & t3 & t4 & _ & _ & _ & _ &
+                                              _ & _ & _ & _ & Pq & Pa & Pn & Pr & _ & Lbody & _).
+  rewrite Pq. cbn [bind]. rewrite Pa. cbn [bind]. rewrite Pn. cbn [bind]. rewrite Pr. cbn [bind].
+  set (omitted := negb ((length kq0 =? length (m_qs m)) && (length ka0 =? length (m_an m)) &&
+                        (length kn0 =? length (m_ns m)) && (length kr0 =? length ar0))).
+  set (h' := set_tc (m_hdr m) (h_tc (m_hdr m) || omitted)).
+  assert (Hh' : wf_header h') by (apply wf_header_set_tc; exact Hh).
+  assert (Hbits : hdr_bits h' = if omitted then N.lor (hdr_bits (m_hdr m)) 512 else hdr_bits (m_hdr m)).
+  { unfold h'. destruct omitted; [rewrite orb_true_r; symmetry; now apply hdr_bits_set_tc|rewrite orb_false_r, set_tc_same; reflexivity]. }
+  assert (Hid : h_id h' = h_id (m_hdr m)) by (unfold h'; destruct (m_hdr m); reflexivity).
+  rewrite <- Hbits, <- Hid.
+  destruct (fst (pop_opt (m_ar m))) as [o|] eqn:Eo.
+  - destruct (Hopt' o eq_refl) as [Wo Hlo]. pose proof (Dopt o eq_refl) as Do.
+    set (hb := hdr_bytes (h_id h') (hdr_bits h') (N.of_nat (length kq0)) (N.of_nat (length ka0)) (N.of_nat (length kn0))
+                         (N.of_nat (length kr0 + 1))).
+    destruct (Sect hb (hdr_bytes_len _ _ _ _ _ _)) as (kq & ka & kn & kr & qb' & ab' & nb' & rb' & t1' & t2' & t3' & t4' &
+        qs' & an' & ns' & ar' & Sq & Sa & Sn & Sr & Pq' & Pa' & Pn' & Pr' & Tall & _ & Uall & Vq & Va & Vn & Vr).
+    rewrite Pq in Pq'. inversion Pq' as [[E1 E2 E3]]; subst qb' t1'.
+    rewrite Pa in Pa'. inversion Pa' as [[E4 E5 E6]]; subst ab' t2'.
+    rewrite Pn in Pn'. inversion Pn' as [[E7 E8 E9]]; subst nb' t3'.
+    rewrite Pr in Pr'. inversion Pr' as [[E10 E11 E12]]; subst rb' t4'.
+    assert (Hhb : length hb = 12) by apply hdr_bytes_len.
+    assert (HokH4 : tbl_ok ((((hb ++ qb) ++ ab) ++ nb) ++ rb) t4) by (rewrite <- !app_assoc; exact Tall).
+    destruct (cc_rr_ok o Wo Do ((((hb ++ qb) ++ ab) ++ nb) ++ rb) t4 HokH4) as (ob & t5 & o' & Po & _ & Uo & Vo).
+    rewrite !app_length, Hhb in Po.
+    replace (12 + length (qb ++ ab ++ nb ++ rb)) with (12 + length qb + length ab + length nb + length rb)
+      by (rewrite !app_length; lia).
+    rewrite Po. cbn [bind]. pose proof (pack_rr_len _ _ _ _ _ _ Wo Po) as Lo.
+    match goal with |- context [if ?b then Err _ else _] => assert (b = false) as -> by (apply Nat.ltb_ge; unfold msg_len; lia) end.
+    cbn [bind]. fold hb.
+    exists (hb ++ (qb ++ ab ++ nb ++ rb) ++ ob), (mkMsg h' qs' an' ns' (ar' ++ [o'])), kq, ka, kn, kr.
+    split; [reflexivity|]. split.
+    + unfold unpack_msg.
+      replace ((hb ++ (qb ++ ab ++ nb ++ rb) ++ ob) ++ post) with (hb ++ (qb ++ ab ++ nb ++ rb ++ ob ++ post))
+        by (rewrite <- !app_assoc; reflexivity).
+      unfold hb at 1. rewrite unpack_header_bytes; [|exact Hh'| | | |].
+      2,3,4:(match goal with |- u16 (N.of_nat (length ?k)) => idtac end).
+      2:{ unfold u16. rewrite E3. apply sublist_length in Sq. unfold count_ok in Cq. lia. }
+      2:{ unfold u16. rewrite E6. apply sublist_length in Sa. unfold count_ok in Ca. lia. }
+      2:{ unfold u16. rewrite E9. apply sublist_length in Sn. unfold count_ok in Cn. lia. }
+      2:{ unfold u16. rewrite E12. apply sublist_length in Sr. unfold count_ok in Cr. lia. }
+      cbn [bind]. rewrite !Nat2N.id. fold hb.
+      destruct (Uall (ob ++ post)) as (Uq & Ua & Un & Ur).
+      rewrite unpack_qs_list, E3, Uq. cbn [bind].
+      rewrite unpack_rrs_list, E6, Ua. cbn [bind].
+      rewrite unpack_rrs_list, E9, Un. cbn [bind].
+      rewrite unpack_rrs_list, E12.
+      specialize (Uo post). rewrite !app_length, Hhb, <- !app_assoc in Uo.
+      rewrite (unpack_list_snoc _ _ _ _ _ _ _ Ur Uo). cbn [bind]. reflexivity.
+    + cbn [m_hdr m_qs m_an m_ns m_ar]. unfold opt_list. rewrite Eo.
+      split; [exact Sq|]. split; [exact Sa|]. split; [exact Sn|]. split; [exact Sr|].
+      split; [exact Vq|]. split; [exact Va|]. split; [exact Vn|].
+      split; [rewrite !map_app; cbn [map]; now rewrite Vr, Vo|].
+      unfold h', omitted. rewrite E3, E6, E9, E12. reflexivity.
+  - cbn [bind].
+    set (hb := hdr_bytes (h_id h') (hdr_bits h') (N.of_nat (length kq0)) (N.of_nat (length ka0)) (N.of_nat (length kn0))
+                         (N.of_nat (length kr0 + 0))).
+    destruct (Sect hb (hdr_bytes_len _ _ _ _ _ _)) as (kq & ka & kn & kr & qb' & ab' & nb' & rb' & t1' & t2' & t3' & t4' &
+        qs' & an' & ns' & ar' & Sq & Sa & Sn & Sr & Pq' & Pa' & Pn' & Pr' & Tall & _ & Uall & Vq & Va & Vn & Vr).
+    rewrite Pq in Pq'. inversion Pq' as [[E1 E2 E3]]; subst qb' t1'.
+    rewrite Pa in Pa'. inversion Pa' as [[E4 E5 E6]]; subst ab' t2'.
+    rewrite Pn in Pn'. inversion Pn' as [[E7 E8 E9]]; subst nb' t3'.
+    rewrite Pr in Pr'. inversion Pr' as [[E10 E11 E12]]; subst rb' t4'.
+    fold hb.
+    exists (hb ++ (qb ++ ab ++ nb ++ rb) ++ []), (mkMsg h' qs' an' ns' ar'), kq, ka, kn, kr.
+    split; [reflexivity|]. split.
+    + unfold unpack_msg.
+      replace ((hb ++ (qb ++ ab ++ nb ++ rb) ++ []) ++ post) with (hb ++ (qb ++ ab ++ nb ++ rb ++ post))
+        by (rewrite app_nil_r, <- !app_assoc; reflexivity).
+      unfold hb at 1. rewrite unpack_header_bytes; [|exact Hh'| | | |].
+      2:{ unfold u16. rewrite E3. apply sublist_length in Sq. unfold count_ok in Cq. lia. }
+      2:{ unfold u16. rewrite E6. apply sublist_length in Sa. unfold count_ok in Ca. lia. }
+      2:{ unfold u16. rewrite E9. apply sublist_length in Sn. unfold count_ok in Cn. lia. }
+      2:{ unfold u16. rewrite Nat.add_0_r, E12. apply sublist_length in Sr. rewrite (Hnone eq_refl) in Sr. unfold count_ok in Cr. lia. }
+      cbn [bind]. rewrite !Nat2N.id. fold hb.
+      destruct (Uall post) as (Uq & Ua & Un & Ur).
+      rewrite unpack_qs_list, E3, Uq. cbn [bind].
+      rewrite unpack_rrs_list, E6, Ua. cbn [bind].
+      rewrite unpack_rrs_list, E9, Un. cbn [bind].
+      rewrite unpack_rrs_list, Nat.add_0_r, E12, Ur. cbn [bind]. reflexivity.
+    + cbn [m_hdr m_qs m_an m_ns m_ar]. unfold opt_list. rewrite Eo, app_nil_r.
+      split; [exact Sq|]. split; [exact Sa|]. split; [exact Sn|]. split; [exact Sr|].
+      split; [exact Vq|]. split; [exact Va|]. split; [exact Vn|]. split; [exact Vr|].
+      unfold h', omitted. rewrite E3, E6, E9, E12. reflexivity.
+Qed.
